@@ -23,7 +23,7 @@ NAMES = ["None", "naive", "fixed", "capacity", "effective_throughput", "lala"]
 EVAL_BD = ["EarlierResultsUnchanged", "EffectiveChannelBlockDiagonal", "ReturnedChannelIsChannelTimesPrecoder", "PowerLePerUser", "PowerEqPerUser",
            "PowerReachedByOne", "EffectiveStreamsOrthogonal", "WaterLevelCommonOnPoweredStreams", "InputsUntouched"]
 EVAL_EXT = ["EarlierResultsUnchanged", "InterUserNullWithExtInt", "PowerEqPerUser", "StreamCountsMatchPrecoders", "ReceiveFilterInvertsOnPoweredStreams",
-            "ExtIntRemovedWhenEnoughStreamsSacrificed", "DecidedCountAvoidsDominantInterference", "InputsUntouched"]
+            "ExtIntRemovedWhenEnoughStreamsSacrificed", "InputsUntouched"]
 
 
 def draw_pe(rs):
